@@ -24,8 +24,21 @@ def _path_root(expr) -> str:
     return ast.unparse(expr)
 
 
-def _effect_target(c: ast.Call, kind: str, what: str):
+def _fd_origin(func_node, name: str):
+    """path argument of the os.open(...) call a descriptor variable was assigned from"""
+    for x in ast.walk(func_node):
+        if isinstance(x, ast.Assign) and ast.unparse(x.targets[0]) == name and isinstance(x.value, ast.Call) \
+                and (effects.dotted(x.value.func) or "").endswith("os.open") and x.value.args:
+            return x.value.args[0]
+    return None
+
+
+def _effect_target(c: ast.Call, kind: str, what: str, func_node=None):
     """The path expression an effect creates/modifies."""
+    if what.startswith("open(") and c.args and isinstance(c.args[0], ast.Name) and func_node is not None:
+        o = _fd_origin(func_node, c.args[0].id)
+        if o is not None:
+            return o
     if what.startswith("open("):
         if isinstance(c.func, ast.Attribute) and effects.dotted(c.func) not in ("io.open", "codecs.open"):
             return c.func.value
@@ -85,7 +98,7 @@ def rule_gate(ctx, px):
             for c, kind, what in effects.fs_effects(m, f.node):
                 if kind not in CREATE_KINDS:
                     continue
-                tgt = _effect_target(c, kind, what)
+                tgt = _effect_target(c, kind, what, f.node)
                 if tgt is None:
                     ctx.ob(R, m.rel, f"{f.short} :: {what}", False, "cannot determine the target path", c.lineno)
                     n += 1
@@ -107,7 +120,7 @@ def rule_gate(ctx, px):
                             all_ok = True
                             whys = []
                             for caller, cc in sites:
-                                idx = params.index(root) - 1  # minus self
+                                idx = params.index(root) - (0 if any("staticmethod" in d for d in f.decorators) else 1)
                                 arg = None
                                 for k in cc.keywords:
                                     if k.arg == root:
@@ -127,40 +140,111 @@ def rule_gate(ctx, px):
     ctx.floor(R, n, 3)
 
 
+def rule_truncate(ctx, px):
+    R = "R-C12-TRUNCATE"
+    ctx.rule(
+        R,
+        "every output file is opened so that earlier content cannot survive: builtin open(<path>, 'w') (create or "
+        "truncate) or shutil.copy; a low-level os.open must carry O_TRUNC (or be exclusive), and wrapping an existing "
+        "descriptor does not truncate",
+    )
+    m = px.module(GEN_MOD)
+    n = 0
+    for f in px.all_funcs:
+        if f.module is not m:
+            continue
+        for c in ast.walk(f.node):
+            if not isinstance(c, ast.Call):
+                continue
+            d = effects.dotted(c.func)
+            r = effects.resolve_dotted(m, d) if d else None
+            if r == "os.open":
+                n += 1
+                # collect the flag expression (second argument), following one local assignment and |= updates
+                flags_txt = ast.unparse(c.args[1]) if len(c.args) > 1 else ""
+                if len(c.args) > 1 and isinstance(c.args[1], ast.Name):
+                    parts = []
+                    for x in ast.walk(f.node):
+                        if isinstance(x, ast.Assign) and ast.unparse(x.targets[0]) == c.args[1].id:
+                            parts.append(("always", ast.unparse(x.value)))
+                        if isinstance(x, ast.AugAssign) and ast.unparse(x.target) == c.args[1].id:
+                            g = pyfront.guards_of(f.node, x)
+                            parts.append(("always" if not g else "conditional", ast.unparse(x.value)))
+                    flags_txt = " | ".join(v for k, v in parts if k == "always")
+                ok = "O_TRUNC" in flags_txt or "O_EXCL" in flags_txt
+                ctx.ob(R, m.rel, f"{f.short} :: os.open({flags_txt or '?'})", ok,
+                       "" if ok else "an existing output file is opened without O_TRUNC: when the new content is shorter the tail of "
+                       "the old file survives regeneration", c.lineno)
+            elif r in ("open", "io.open", "os.fdopen") and c.args:
+                a0 = c.args[0]
+                is_path = isinstance(a0, ast.Call) or (isinstance(a0, (ast.Name, ast.Attribute)) and not ast.unparse(a0).lower().startswith("fd"))
+                mode = effects._open_mode(c) if r != "os.fdopen" else (ast.literal_eval(c.args[1]) if len(c.args) > 1 and isinstance(c.args[1], ast.Constant) else "r")
+                if mode and set(mode) & set("wax+"):
+                    n += 1
+                    # a descriptor (name produced by os.open) is not a path
+                    from_os_open = isinstance(a0, ast.Name) and any(
+                        isinstance(x, ast.Assign) and ast.unparse(x.targets[0]) == a0.id and isinstance(x.value, ast.Call)
+                        and effects.resolve_dotted(m, effects.dotted(x.value.func) or "") == "os.open" for x in ast.walk(f.node))
+                    ok = from_os_open or "w" in mode
+                    ctx.ob(R, m.rel, f"{f.short} :: {r}({ast.unparse(a0)}, {mode!r})", ok,
+                           ("wraps a descriptor: truncation is decided by the os.open flags (own obligation)" if from_os_open else "create-or-truncate")
+                           if ok else f"mode {mode!r} does not truncate an existing file", c.lineno)
+    ctx.floor(R, n, 2)
+
+
 def rule_gate_shape(ctx, px):
     R = "R-C12-GATE-SHAPE"
     ctx.rule(
         R,
-        "inside _handle_overwrite the mode change happens only when the file exists and allow_overwrite is true, the "
-        "other branch raises, and nothing else touches the file system",
+        "path-wise over _handle_overwrite: every path on which the file exists and allow_overwrite is false ends in "
+        "raise; the mode is changed only on paths where allow_overwrite is true and only by adding bits to the current "
+        "mode; nothing else touches the file system",
     )
     f = px.func(GEN_MOD, "CodeGenerator._handle_overwrite")
-    effs = effects.fs_effects(f.module, f.node)
+    try:
+        paths = pyfront.enumerate_paths(f.node.body)
+    except ValueError:
+        raise AnalysisError("_handle_overwrite has too many paths to enumerate")
+    ctx.unit("handle_overwrite_paths", len(paths))
+
+    def absent(terms):
+        return any((e.endswith(".exists()") and not p) or (e.startswith("except ") and "FileNotFoundError" in e and p) for e, p in terms)
+
     n_chmod = 0
-    for c, kind, what in effs:
-        g = pyfront.guards_of(f.node, c)
-        terms = pyfront.guard_terms(g or ())
-        if kind == "chmod":
-            n_chmod += 1
-            ok = ("allow_overwrite", True) in terms and any(e.endswith(".exists()") and p for e, p in terms)
-            ctx.ob(R, f.module.rel, f"{f.short} :: {what} under exists() and allow_overwrite", ok,
-                   "" if ok else f"chmod guarded by {terms}", c.lineno)
-            # the new mode only adds write permission bits: `stat().st_mode | <const>`
-            mode = c.args[0] if c.args else None
-            ok = isinstance(mode, ast.BinOp) and isinstance(mode.op, ast.BitOr) and (
-                "st_mode" in ast.unparse(mode.left) or "st_mode" in ast.unparse(mode.right))
-            ctx.ob(R, f.module.rel, f"{f.short} :: chmod keeps existing bits (st_mode | mask)", ok,
-                   "" if ok else f"mode expression is {ast.unparse(mode) if mode else None}", c.lineno)
-        else:
-            ctx.ob(R, f.module.rel, f"{f.short} :: {what}", False, f"unexpected file-system effect ({kind}) in the gate", c.lineno)
-    # the refusing branch raises
-    raises = []
-    for st, g in pyfront.walk_guarded(f.node.body):
-        if isinstance(st, ast.Raise):
-            raises.append(pyfront.guard_terms(g))
-    ok = any(("allow_overwrite", False) in t and any(e.endswith(".exists()") and p for e, p in t) for t in raises)
-    ctx.ob(R, f.module.rel, f"{f.short} :: raises when the file exists and allow_overwrite is false", ok,
-           "" if ok else "the refusing branch no longer raises", f.node.lineno)
+    for i, p in enumerate(paths):
+        terms = p.terms()
+        desc = " and ".join(("" if pol else "not ") + e for e, pol in terms) or "<always>"
+        allow = ("allow_overwrite", True) in terms
+        if p.outcome != "raise":
+            ok = allow or absent(terms)
+            ctx.ob(R, f.module.rel, f"{f.short} :: path [{desc}] -> {p.outcome}", ok,
+                   "overwrite allowed or file absent" if ok else
+                   "the gate lets the run proceed although the file may exist and allow_overwrite is false: its content and mode are then overwritten",
+                   f.node.lineno)
+        for st in p.stmts:
+            if isinstance(st, (ast.If, ast.With, ast.For, ast.While)):
+                continue
+            for c, kind, what in effects.fs_effects(f.module, st):
+                if kind == "chmod":
+                    n_chmod += 1
+                    ctx.ob(R, f.module.rel, f"{f.short} :: {what} on path [{desc}]", allow,
+                           "" if allow else "mode of an existing file is changed although overwriting is not allowed", c.lineno)
+                    mode = c.args[0] if c.args else None
+                    okm = False
+                    if isinstance(mode, ast.BinOp) and isinstance(mode.op, ast.BitOr):
+                        for side in (mode.left, mode.right):
+                            t = ast.unparse(side)
+                            if "st_mode" in t:
+                                okm = True
+                            elif isinstance(side, ast.Name):
+                                okm = okm or any(isinstance(x, ast.Assign) and ast.unparse(x.targets[0]) == side.id and "st_mode" in ast.unparse(x.value)
+                                                 for x in ast.walk(f.node))
+                    ctx.ob(R, f.module.rel, f"{f.short} :: chmod keeps existing bits (current mode | mask) on path [{desc}]", okm,
+                           "" if okm else f"mode expression is {ast.unparse(mode) if mode else None}", c.lineno)
+                else:
+                    ctx.ob(R, f.module.rel, f"{f.short} :: {what}", False, f"unexpected file-system effect ({kind}) in the gate", c.lineno)
+    has_raise = any(p.outcome == "raise" for p in paths)
+    ctx.ob(R, f.module.rel, f"{f.short} :: some path refuses (raises)", has_raise, "" if has_raise else "the gate never refuses", f.node.lineno)
     ctx.floor(R, n_chmod, 1)
     # allow_overwrite is not reassigned anywhere and is forwarded unmodified
     n = 0
@@ -331,6 +415,7 @@ def run(ctx):
     px = pyfront.PyIndex(ctx.root)
     ctx.unit("python_modules", len(px.modules))
     rule_gate(ctx, px)
+    rule_truncate(ctx, px)
     rule_gate_shape(ctx, px)
     rule_mode(ctx, px)
     rule_setfilemode(ctx, px)
